@@ -349,6 +349,105 @@ def guard(ctx, rule='C06.guard'):
     return res
 
 
+def _error_origins(fn):
+    """{bb: variant} blocks of fn that build a value of the crate's error enum"""
+    out = {}
+    for bb in fn.reachable_blocks():
+        for st in fn.blocks[bb]['stmts']:
+            if st['k'] == 'assign' and st['rv']['k'] == 'agg' and st['rv'].get('ak') == 'adt' and st['rv']['adt'].endswith('errors::Error'):
+                out[bb] = st['rv']['variant']
+    return out
+
+
+def error_atomic(ctx, rule='C06.error-atomic'):
+    """"A call that returns an error changes nothing", structural part: in the inlined trace of every public mutator, no error return is reachable after a
+    state-mutating primitive -- except through an error the same call has already tested for before its first mutation (a defensive re-check that cannot fire)."""
+    from trace import Trace
+    res = []
+    F = ctx.facts
+    prims = primitives(ctx)
+
+    def classify(fn, bb, t, c, target):
+        if bb in prims.get(fn, {}):
+            return [dict(ev='X', what=sorted(prims[fn][bb]))]
+        return []
+
+    def classify_stmt(fn, bb, si, st):
+        if si == 0 and bb in prims.get(fn, {}):
+            return [dict(ev='X', what=sorted(prims[fn][bb]))]
+        return []
+    try:
+        (commit_fn,) = ctx.need('Tx::commit')
+    except AnchorError as e:
+        return [unresolved(rule, str(e))]
+    nm = 0
+    nx = 0
+    rel = None
+    origins = {}
+    for m in F.fns:
+        if m.kind == 'Closure' or not m.eff_pub or m is commit_fn:
+            continue
+        st = m.self_adt and last_seg(m.self_adt)
+        if st not in CARRIERS:
+            continue
+        T = Trace(F, m, classify, classify_stmt=classify_stmt, relevant_fn=rel)
+        rel = T._relevant
+        evs = T.events('X')
+        if not evs:
+            continue
+        nm += 1
+        nx += len(evs)
+        errs = {i for i, k in T.exit_kinds() if k == 'err'}
+        if not errs:
+            res.append(ok(rule, '%s: %d mutation sites, no error return at all' % (m.qual, len(evs)), sites=len(evs)))
+            continue
+        starts = set()
+        for e in evs:
+            starts |= set(T.succ.get(e['node'], ()))
+        after = T.reach(starts)
+        # error origins on the trace, split into "before any mutation" and "after one"
+        pre, post = {}, {}
+        for n in T.nodes:
+            if n.bb is None or n.virt:
+                continue
+            if n.fn not in origins:
+                origins[n.fn] = _error_origins(n.fn)
+            v = origins[n.fn].get(n.bb)
+            if v is None:
+                continue
+            (post if n.id in after else pre).setdefault(v, set()).add(n.id)
+        rechecks = set()
+        for v, ids in post.items():
+            if v in pre:
+                rechecks |= ids
+        live = T.reach(starts, avoid=rechecks)
+        hit = sorted(live & errs)
+        if not hit:
+            extra = ''
+            if rechecks:
+                extra = '; %d error site(s) after a mutation only repeat a test made before the first mutation (%s)' % (len(rechecks), ', '.join(sorted(v for v in post if v in pre)))
+            res.append(ok(rule, '%s: no error return is reachable after any of its %d mutation sites%s' % (m.qual, len(evs), extra), sites=len(evs)))
+            continue
+        # report the first mutation from which the error return is reachable
+        for e in evs:
+            st1 = set(T.succ.get(e['node'], ()))
+            pth = T.path(st1, hit[0], avoid=rechecks)
+            if pth:
+                n0 = T.nodes[e['node']]
+                # the error origin on the path, for the key
+                org = [T.nodes[i] for i in pth if T.nodes[i].bb is not None and not T.nodes[i].virt and origins.setdefault(T.nodes[i].fn, _error_origins(T.nodes[i].fn)).get(T.nodes[i].bb)]
+                what = ('Error::%s built in %s' % (origins[org[-1].fn][org[-1].bb], org[-1].fn.qual)) if org else 'a propagated error'
+                res.append(bad(rule, '%s | error return after mutation (%s)' % (m.qual, what),
+                               '%s can return an error (%s) after it has already changed transaction state at %s (%s): a call that fails must leave the transaction as it was, '
+                               'but the half-applied change is kept and later committed' % (m.qual, what, n0.loc(), ', '.join(e['what'])),
+                               where=n0.loc(), path=T.describe_path(pth)))
+                break
+    f = floor(rule, 'public mutators with mutation sites', nm, 8) or floor(rule, 'mutation sites in their traces', nx, 20)
+    if f:
+        res.append(f)
+    return res
+
+
 def writable_provenance(ctx, rule='C06.writable-provenance'):
     res = []
     F = ctx.facts
@@ -402,6 +501,7 @@ def run(ctx, tier):
     results += ob['O4']
     results += guard(ctx)
     results += writable_provenance(ctx)
+    results += error_atomic(ctx)
     return dict(
         results=results, stats=dict(ctx.stats),
         explanation=(
@@ -409,6 +509,7 @@ def run(ctx, tier):
             'points and Drop impls, so drop / read / check cannot touch the file; (open-existing) every write in open is restricted to a freshly created (create_new) or empty file '
             'and nothing truncates; (shared-freelist) the shared free list changes only in the commit (behind the header write) and in DBInner::open; (guard) every public method of '
             'Tx/Bucket/Cursor/iterators from which a state-mutating primitive is reachable (constant-bool specialised) tests the writable bit first and returns ReadOnlyTx on the '
-            'read-only edge; (writable-provenance) every carrier takes its writable bit from the transaction lock or its parent. NOT decided: that a call returning another error '
-            'leaves the in-memory overlay untouched; byte-identity of later commits.'),
+            'read-only edge; (writable-provenance) every carrier takes its writable bit from the transaction lock or its parent; (error-atomic) in the inlined, Result-kind-tracking trace of every public mutator no error return is '
+            'reachable after a state-mutating primitive, except a repeat of a test already made before the first mutation. NOT decided: byte-identity of later commits; that '
+            'an error inside commit leaves the overlay usable (C11).'),
         assumptions=['the set of logical-state fields and the cache exclusions listed in rules/c06.py'])
